@@ -1,4 +1,5 @@
 import Driver.TransportCommon
+import RsMatterVerif.Model.TwoNode
 /-! Driver for C09 (unit level): model correspondence + the property's clauses that are observable
 on one node, evaluated on the implementation's own outputs:
 * give-up: a message is transmitted at most `1 + budget` times, never fewer than `budget` times
@@ -240,50 +241,54 @@ def strictlyIncreasing : List Nat → Bool
   | a :: b :: rest => a < b && strictlyIncreasing (b :: rest)
   | _ => true
 
+/-- one token of the harness's event log → observed event of the two-node model -/
+def parseObs (tok : String) : Option TwoNode.Obs :=
+  let fate (f : String) : TwoNode.Fate := if f = "x" then .lost else if f = "2" then .twice else .pass
+  let n (x : String) : Nat := x.toNat?.getD 0
+  match tok.splitOn ":" with
+  | ["TA", t, c, i, f] => some (.txA (n t) (n c) (n i) (fate f))
+  | ["RB", c, i] => some (.rxB (n c) (n i))
+  | ["AP", i] => some (.appB (n i))
+  | ["TB", c, k, f] => some (.txB (n c) (n k) (fate f))
+  | ["RA", c, k] => some (.rxA (n c) (n k))
+  | ["E", i, r] => some (.endA (n i) (r == "ok"))
+  | _ => none
+
+/-- The system-level monitor: the observed event log must be a trace of the two-node model
+(`TwoNode.acceptsTrace`: every event an enabled transition that produces exactly the observed
+datagrams / application events; retransmissions not earlier than the pending entry's back-off; a
+give-up only with the budget used up; every delivery answered by the acknowledgement the model
+produces; success exactly when a matching acknowledgement was processed) — the theorems of
+`Props/C09.lean` hold for every such trace. What the model does not contain is checked here directly:
+the only failure of a send call is the transmit time-out, and the application's log reported by
+the harness is the one the model ends with. -/
 def sysMonitor (res : String) : Option String :=
   let ws := words res
   let base := (kv ws "base").toNat?.getD 300
+  let enc := kv ws "enc" == "1"
   let results := (kv ws "res").splitOn "," |>.filter (· != "")
   let app := ((kv ws "app").splitOn ",").filterMap (·.toNat?)
-  let wire := ((kv ws "wire").splitOn ",").filterMap parseWire
-  -- 1. at most once, in sending order
-  if !strictlyIncreasing app then some s!"application received {app}: not at most once / not in sending order" else
-  -- 2. success only if the peer received it; no other outcome than success or the transmit timeout
-  match (results.zipIdx).findSome? (fun (r, i) =>
-      if r = "ok" then (if app.contains i then none else some s!"send {i} succeeded but the peer's application never received it")
-      else if r = "TxTimeout" then none
-      else some s!"send {i} ended with '{r}' (neither success nor transmit timeout)") with
-  | some v => some v
+  let toks := ((kv ws "trace").splitOn ",").filter (· != "")
+  match results.find? (fun r => r != "ok" && r != "TxTimeout") with
+  | some r => some s!"a send ended with '{r}' (neither success nor transmit timeout)"
   | none =>
-  -- 3. per message: transmissions, budget, back-off
-  let perMsg (i : Nat) : Option String :=
-    let txs := wire.filter (fun w => w.src == 1 && w.num == some i)
-    let times := txs.map (·.t)
-    let r := results.getD i "-"
-    let gaps := (times.zip (times.drop 1)).zipIdx
-    let early := gaps.findSome? (fun ((a, b), k) =>
-      if aboveSpecLower base k (b - a) 100 then none
-      else some s!"message {i}: retransmission {k + 1} after {b - a} ms, earlier than the protocol's back-off for base {base}")
-    match early with
-    | some v => some v
-    | none =>
-      if txs.length > budget + 1 then some s!"message {i} transmitted {txs.length} times: budget exceeded"
-      else if r = "TxTimeout" && txs.length < budget then some s!"message {i}: gave up after {txs.length} transmissions"
-      else if r = "TxTimeout" && txs.any (fun w => w.copies > 0 &&
-          -- an acknowledgement of it that reached the sender (undelayed) while it was still retransmitting
-          wire.any (fun a => a.src == 0 && a.ack == some w.ctr && a.copies > 0 && !a.delayed &&
-            a.t ≤ (times.getLast?.getD 0))) then
-        some s!"message {i}: a transmission and an acknowledgement got through, yet the call failed"
+  match toks.find? (fun t => (parseObs t).isNone) with
+  | some t => some s!"unexpected datagram or event on the exchange: {t}"
+  | none =>
+  let obs := toks.filterMap parseObs
+  -- the initial counters are random: taken from the first transmission of each node
+  let a0 := obs.findSome? (fun o => match o with | .txA _ c _ _ => some c | _ => none)
+  -- (the receiver's acknowledgements may reach the wire out of order: its first counter is the smallest)
+  let b0 := (obs.filterMap (fun o => match o with | .txB c _ _ => some c | _ => none)).min?
+  match a0 with
+  | none => if obs.isEmpty then none else some "events without any transmission of the sender"
+  | some a0 =>
+    match TwoNode.acceptsTrace (TwoNode.init a0 (b0.getD 0) enc (some base)) obs with
+    | .error e => some s!"not a trace of the two-node model: {e}"
+    | .ok s =>
+      if s.app.reverse != app then some s!"application log {app} differs from the model's {s.app.reverse}"
+      else if s.res.reverse.map (·.2) != results.map (· == "ok") then some "send results differ from the model's"
       else none
-  match (List.range results.length).findSome? perMsg with
-  | some v => some v
-  | none =>
-  -- 4. every delivered copy of a message that requested an acknowledgement is acknowledged
-  let ctrs := (wire.filter (fun w => w.src == 1 && w.flags % 8 ≥ 4)).map (·.ctr) |>.eraseDups
-  ctrs.findSome? (fun c =>
-    let delivered := (wire.filter (fun w => w.src == 1 && w.ctr == c)).foldl (fun n w => n + w.copies) 0
-    let acks := (wire.filter (fun w => w.src == 0 && w.ack == some c)).length
-    if acks < delivered then some s!"counter {c} was delivered {delivered} times but acknowledged only {acks} times" else none)
 
 def step (st : St) (line : String) : St × String :=
   let (op, out) := splitArrow line
